@@ -988,10 +988,21 @@ class TensorDictParams(TensorDictBase, nn.Module):
     def _propagate_lock(self, _lock_parents_weakrefs=None, *, is_compiling):
         """Registers the parent tensordict that handles the lock."""
         self._is_locked = True
+        if _lock_parents_weakrefs is not None:
+            _lock_parents_weakrefs = [
+                ref
+                for ref in _lock_parents_weakrefs
+                if not any(refref is ref for refref in self._lock_parents_weakrefs)
+            ]
         if not is_compiling:
             if _lock_parents_weakrefs is None:
                 _lock_parents_weakrefs = []
-            self._lock_parents_weakrefs += _lock_parents_weakrefs
+            else:
+                self._lock_parents_weakrefs = (
+                    self._lock_parents_weakrefs + _lock_parents_weakrefs
+                )
+            # a copy: the list received is the one the caller hands to its other entries too
+            _lock_parents_weakrefs = list(_lock_parents_weakrefs)
             _lock_parents_weakrefs.append(weakref.ref(self))
         # the content must register this object among its lock parents even when it is locked already
         # (`lock=True`): otherwise it could be unlocked -- and modified -- directly while this
